@@ -8,8 +8,8 @@
 **   shim <name> route=path|fd|vio|pipe mode=r|w|rw cd=0|1 lead=<n> trail=<n> content=<hex|-> ops=<op>;<op>;...
 **       The REAL primitives psf_fseek / psf_fread / psf_fwrite / psf_ftell / psf_get_filelen / psf_ftruncate /
 **       psf_fclose are called on an SF_PRIVATE set up the way sf_open (psf_fopen), sf_open_fd (the five statements
-**       of sndfile.c:461-466 followed by the route related head of psf_open_file, sndfile.c:3075-3107) and
-**       sf_open_virtual set it up.  The OS file is <lead junk><content><trail junk>, the descriptor is positioned at
+**       of sndfile.c:461-466 followed by the route related head of psf_open_file, sndfile.c:3075-3107; `min=<n>` overrides the restated
+**       smallest embedded length, default 24) and sf_open_virtual set it up.  The OS file is <lead junk><content><trail junk>, the descriptor is positioned at
 **       <lead>; for `vio` the store holds <content><trail junk>; for `pipe` <content> is fed through a pipe.
 **       ops:  s:<off>:<whence>  r:<bytes>:<items>  w:<bytes>:<items>:<hex>  t  l  x:<len>  c (psf_fclose)
 **       -> shim <name> open=<err> off=<fileoffset> len=<filelength> pipe=<0|1> | <ret>[:<hex>] ... | err=<psf->error>
@@ -77,7 +77,7 @@ case_shim (char **tok, int ntok)
 	char path [256] ;
 	SF_PRIVATE *psf = psf_allocate () ;
 	STORE *st = store_get ("s63") ;
-	int fd = -1, sentinel, err = 0, is_vio = !strcmp (route, "vio"), is_pipe = !strcmp (route, "pipe"), closed = 0 ;
+	int fd = -1, sentinel, err = 0, is_vio = !strcmp (route, "vio"), is_pipe = !strcmp (route, "pipe"), closed = 0, pipe_rd = -1 ;
 
 	snprintf (path, sizeof (path), "%s/%s.dat", rdir, "shim") ;
 	sentinel = open ("/dev/null", O_RDONLY) ;
@@ -107,9 +107,17 @@ case_shim (char **tok, int ntok)
 		if (is_pipe)
 		{	int pfd [2] ;
 			if (pipe (pfd) != 0 || clen > 60000) { printf ("shim %s bad-pipe\n", name) ; return ; }
-			if (clen && write (pfd [1], c, clen) != (ssize_t) clen) { }
-			close (pfd [1]) ;
-			fd = pfd [0] ;
+			if (mode == SFM_WRITE)
+			{	/* the handle gets the writing end; what arrives at the other end is printed as `file=` */
+				fd = pfd [1] ;
+				pipe_rd = pfd [0] ;
+				fcntl (pipe_rd, F_SETFL, O_NONBLOCK) ;
+				}
+			else
+			{	if (clen && write (pfd [1], c, clen) != (ssize_t) clen) { }
+				close (pfd [1]) ;
+				fd = pfd [0] ;
+				} ;
 			}
 		else
 		{	lead_trail_file (path, c, clen, lead, trail) ;
@@ -133,7 +141,8 @@ case_shim (char **tok, int ntok)
 		if (psf->fileoffset > 0)
 			switch (mode)
 			{	case SFM_READ :
-					if (psf->filelength < 44) err = SFE_BAD_OFFSET ;
+					/* the bound itself (24 since 0004-fix, 44 before) is checked on the real psf_open_file by the `gate` cases */
+					if (psf->filelength < (kvs (tok, ntok, "min") [0] ? atoi (kvs (tok, ntok, "min")) : 24)) err = SFE_BAD_OFFSET ;
 					break ;
 				case SFM_WRITE :
 					psf->fileoffset = 0 ;
@@ -190,6 +199,11 @@ case_shim (char **tok, int ntok)
 	if (fd >= 0) printf ("%d", fd_is_open (fd)) ; else printf ("-") ;
 	printf (" sent=%d file=", fd_is_open (sentinel)) ;
 	if (is_vio) puthex (st->buf, st->len) ;
+	else if (is_pipe && pipe_rd >= 0)
+	{	unsigned char pb [4096] ; ssize_t r ;
+		while ((r = read (pipe_rd, pb, sizeof (pb))) > 0) puthex (pb, r) ;
+		close (pipe_rd) ;
+		}
 	else if (is_pipe) printf ("-") ;
 	else print_file (path) ;
 	printf ("\n") ;
